@@ -226,6 +226,17 @@ impl FileLoader {
         let make_err = |kind| ExternalDataError::new(file_path, kind);
         let make_io_err = |err| ExternalDataError::from_io_error(file_path, err);
 
+        // Check that the requested range lies within the file before
+        // allocating a buffer for it, as `location` is untrusted.
+        let file_len = file.metadata().map_err(make_io_err)?.len();
+        let end_offset = location.offset.saturating_add(location.length);
+        if end_offset > file_len {
+            return Err(make_err(ExternalDataErrorKind::TooShort {
+                required_len: end_offset as usize,
+                actual_len: file_len as usize,
+            }));
+        }
+
         file.seek(SeekFrom::Start(location.offset))
             .map_err(make_io_err)?;
 
@@ -624,9 +635,27 @@ mod tests {
             // Range extends beyond end of file
             Case {
                 location: DataLocation {
-                    path: data_filename,
+                    path: data_filename.clone(),
                     offset: 0,
                     length: 36,
+                },
+                expected: Err("file too short".into()),
+            },
+            // Empty range that starts beyond end of file
+            Case {
+                location: DataLocation {
+                    path: data_filename.clone(),
+                    offset: 33,
+                    length: 0,
+                },
+                expected: Err("file too short".into()),
+            },
+            // Length that is much larger than the file
+            Case {
+                location: DataLocation {
+                    path: data_filename,
+                    offset: 0,
+                    length: 1 << 62,
                 },
                 expected: Err("file too short".into()),
             },
